@@ -581,8 +581,39 @@ def run(ctx):
                 if len(set(syms)) == 1 and len(set(strands)) == 1:
                     m[syms[0]] = strands[0]
         return m
-    ctx.ob("R4.strand-symbols", GFF, "GFFFile._create_line", "'+' FORWARD, '-' REVERSE",
-           strand_map(gi, True) == strand_map(cl, False) == {"+": "FORWARD", "-": "REVERSE"},
+    # the reader's side by evaluation: the strand handed back, with the text of the strand column set to each symbol in turn and
+    # the expression folded (an if / elif ladder, a conditional expression or a lookup table give the same answers)
+    def reader_strands():
+        import copy as _copy
+        from ..exprnorm import summarize as _summ, fold as _fold, _symconst
+        sm_ = _summ(gi)
+        unpack = next((st for st in stmts(gi) if isinstance(st, ast.Assign) and isinstance(st.targets[0], ast.Tuple) and len(st.targets[0].elts) == 9), None)
+        if sm_.unsupported or unpack is None or not isinstance(sm_.result, ast.Tuple) or len(sm_.result.elts) != 9:
+            return None
+        pos = [e.id for e in unpack.targets[0].elts].index("strand") if "strand" in [getattr(e, "id", None) for e in unpack.targets[0].elts] else None
+        if pos is None:
+            return None
+        value = sm_.result.elts[6]
+        raw = None
+        for x in ast.walk(value):
+            if isinstance(x, ast.Call) and call_name(x) == "__item__" and isinstance(x.args[1], ast.Constant) and x.args[1].value == pos:
+                raw = ast.dump(x)
+        if raw is None:
+            return None
+        out = {}
+        for sym in ("+", "-", ".", "?"):
+            class _Set(ast.NodeTransformer):
+                def visit_Call(self, n):
+                    if ast.dump(n) == raw:
+                        return ast.Constant(sym)
+                    return self.generic_visit(n)
+            e = _fold(_Set().visit(_copy.deepcopy(value)))
+            sc = _symconst(e)
+            out[sym] = (sc[1].split(".")[-1] if sc[0] == "member" else sc[2]) if sc is not None else "?"
+        return out
+    rs_ = reader_strands()
+    ctx.ob("R4.strand-symbols", GFF, "GFFFile._create_line", "'+' FORWARD, '-' REVERSE (reader evaluated: " + str(rs_) + ")",
+           rs_ == {"+": "FORWARD", "-": "REVERSE", ".": None, "?": None} and strand_map(cl, False) == {"+": "FORWARD", "-": "REVERSE"},
            "strand symbols differ between reader and writer", cl.lineno)
     # column order of the joined line = order of the unpacked columns
     join = [c for c in calls(cl) if isinstance(c.func, ast.Attribute) and c.func.attr == "join"
